@@ -392,6 +392,65 @@ func monC08(c *drv.Ctx) {
 		cs.Count(len(items) >= 3, hexOf(stream), kind)
 	})
 
+	// (4e) the skip template itself, which the three decoders are built on and which is exported for use over
+	// any of them (a field walker): it agrees with the grammar on whether a complete value is there
+	c.Stage("template-over-decoders", c.Pick(20000, 400000), false, func(cs *drv.Case) {
+		r := cs.R
+		t := types[r.Intn(len(types))]
+		v := gen.Tree(r, t, gen.TreeOpts{MaxDepth: 1 + r.Intn(3), MaxElems: 4, NoBigCounts: true}, 0)
+		enc := v.Encode(nil)
+		in := enc
+		switch r.Intn(4) {
+		case 0:
+			in = enc[:r.Intn(len(enc)+1)]
+		case 1:
+			in, _ = gen.Mutate(r, enc, enc)
+		}
+		pr := ref.Parse(in, t)
+		if pr.TooDeep || pr.DontCare || pr.MaxNesting >= 64 || pr.MaxAsk > 1<<20 {
+			cs.C.DontCare("template-boundary-zone")
+			return
+		}
+		kind := r.Intn(4)
+		names := []string{"SkipDecoder/BytesReader", "BytesSkipDecoder", "ReaderSkipDecoder", "SkipDecoder/DefaultReader"}
+		var err error
+		func() {
+			defer func() {
+				if p := recover(); p != nil {
+					err = fmt.Errorf("panic: %v", p)
+					cs.Fail("skip-panic", M{"skipper": "SkipDecoderTpl over " + names[kind]}, M{"panic": fmt.Sprint(p), "input_hex": hexOf(in), "type": t})
+				}
+			}()
+			switch kind {
+			case 0:
+				d := thrift.NewSkipDecoder(bufiox.NewBytesReader(place(in, 0)))
+				defer d.Release()
+				err = thrift.NewSkipDecoderTpl(d).Skip(thrift.TType(t), 64)
+			case 1:
+				d := thrift.NewBytesSkipDecoder(place(in, 0))
+				defer d.Release()
+				err = thrift.NewSkipDecoderTpl(d).Skip(thrift.TType(t), 64)
+			case 2:
+				d := thrift.NewReaderSkipDecoder(bytes.NewReader(in))
+				defer d.Release()
+				err = thrift.NewSkipDecoderTpl(d).Skip(thrift.TType(t), 64)
+			default:
+				d := thrift.NewSkipDecoder(bufiox.NewDefaultReader(&doubles.Source{Data: in, Len: len(in), ErrAt: len(in), Err: io.EOF, Sched: r.Intn(doubles.NSched), R: r, WithData: r.Intn(2) == 0, Budget: 10*len(in) + 100000}))
+				defer d.Release()
+				err = thrift.NewSkipDecoderTpl(d).Skip(thrift.TType(t), 64)
+			}
+		}()
+		cs.Desc = M{"over": names[kind], "type": t, "input_hex": hexOf(in), "oracle_ok": pr.OK}
+		switch {
+		case pr.OK && err != nil:
+			cs.Fail("skip-rejected-wellformed", M{"skipper": "SkipDecoderTpl over " + names[kind]}, M{"err": errString(err), "input_hex": hexOf(in), "type": t})
+		case !pr.OK && err == nil:
+			cs.Fail("skip-accepted-malformed", M{"skipper": "SkipDecoderTpl over " + names[kind], "causes": causeNames(pr.Causes)}, M{"input_hex": hexOf(in), "type": t, "message": "the skip template returned nil although no complete value is present"})
+		}
+		cs.Count(true, hexOf(in), t, kind)
+		cs.C.Obs("template runs judged", 1)
+	})
+
 	// (4b'') a struct walked field by field by the application: the field headers taken with the exported SkipN of
 	// the decoder, each field value with Next - which returns that value and nothing else
 	c.Stage("field-walk-with-skipn", c.Pick(4000, 80000), false, func(cs *drv.Case) {
